@@ -100,8 +100,8 @@ fn main() {
         ("gen", "C19") => c19::generate(seed, &tier, &mut out),
         ("gen", "C15") => c15::generate(seed, &tier, &mut out),
         ("gen", "C13") => c13::generate(seed, &tier, &mut out),
-        ("gen", "C09") => c09::generate("C09", seed, &tier, &mut out),
-        ("gen", "C10") => c09::generate("C10", seed, &tier, &mut out),
+        ("gen", "C09") => { c09::generate("C09", seed, &tier, &mut out); c01::generate("C09", seed, &tier, &mut out) }
+        ("gen", "C10") => { c09::generate("C10", seed, &tier, &mut out); c01::generate("C10", seed, &tier, &mut out) }
         _ => usage(),
     }
     out.flush().unwrap();
